@@ -53,6 +53,10 @@ type (
 		Id     string
 		Help   string
 		Isfile FileKind
+
+		// True if the type is a file type (file, path, or a user-defined
+		// file type), or an array or map of one.
+		baseIsFile bool
 	}
 
 	OutParam struct {
